@@ -1508,7 +1508,8 @@ func genTables() string {
 // boundaryKs: widths at which a machine-word shortcut, a lookup table or a size switch could sit.
 var boundaryKs = []int{7, 8, 15, 16, 31, 32, 62, 63, 64, 65, 127, 128}
 
-// boundaryVals returns ±2^k + d for k in boundaryKs, d in -2..2, and the small integers -3..3.
+// boundaryVals returns ±2^k + d for k in boundaryKs, d in -1..1 (-2..2 at k = 31, 32, 63, 64), and the
+// small integers -3..3.
 func boundaryVals() []*big.Int {
 	seen := map[string]bool{}
 	var out []*big.Int
@@ -1522,7 +1523,11 @@ func boundaryVals() []*big.Int {
 		add(bi(i))
 	}
 	for _, k := range boundaryKs {
-		for d := int64(-2); d <= 2; d++ {
+		w := int64(1)
+		if k == 31 || k == 32 || k == 63 || k == 64 {
+			w = 2 // the native word sizes: two steps either side
+		}
+		for d := -w; d <= w; d++ {
 			add(pow2(k, d))
 			add(new(big.Int).Neg(pow2(k, d)))
 		}
@@ -1828,6 +1833,8 @@ func main() {
 		}
 	}
 	shiftY = append(shiftY, IR{bi(0), bi(1)}, IR{bi(-1), bi(1)}, IR{bi(0), nil}, IR{bi(1), bi(0)})
+	// the operators without a multiplicative helper get the six most telling small operands only
+	fewY := []IR{smallY[0], smallY[1], smallY[2], smallY[5], smallY[11], smallY[12]}
 	for bIdx, b := range bvals {
 		shapes := []IR{
 			{cp(b), cp(b)},
@@ -1851,8 +1858,11 @@ func main() {
 		for _, x := range shapes {
 			for _, op := range ops {
 				ys := smallY
-				if op == "lsh" || op == "rsh" {
+				switch op {
+				case "lsh", "rsh":
 					ys = shiftY
+				case "add", "sub", "unite", "intersect":
+					ys = fewY
 				}
 				for _, y := range ys {
 					q.api(op, cpR(x), cpR(y), 12)
@@ -2041,7 +2051,7 @@ func main() {
 		"random: magnitudes around 2^k±2 up to k=135, sign-straddling, half-infinite; bit patterns: prefix-sharing / adjacent / touching / " +
 		"complementary non-negative ranges (1..131 bits) through andMax/orMax and through And/Or plain, complemented and straddling; " +
 		"half-infinite and/or; shifts: every count 0..200, 2^32 threshold with x=[0,0]/empty only; " +
-		"machine-word boundaries: bounds ±2^k+{-2..2} for k in 7,8,15,16,31,32,62,63,64,65,127,128 (7-10 range shapes each, incl. zero-anchored and sign-straddling) against small " +
+		"machine-word boundaries: bounds ±2^k+{-1..1} (±2 at the word sizes 31,32,63,64) for k in 7,8,15,16,31,32,62,63,64,65,127,128 (7-10 range shapes each, incl. zero-anchored and sign-straddling) against small " +
 		"divisors/factors/shift counts (-1,0,1,..) through all 10 ops, and boundary against boundary; every unexported helper directly " +
 		"(bigIntQuo/Mul/Lsh/Rsh/NewSet/NewNot, bitMask 0..140, biggerIntPair ops, predicates, String, justZero, mulLsh incl. negative counts). " +
 		"non-trivial = both operands non-empty; distinct = distinct op line")
